@@ -2,3 +2,4 @@ import BLDFM.Scalar
 import BLDFM.Column
 import BLDFM.Grid
 import BLDFM.Solver
+import BLDFM.Geo
